@@ -455,7 +455,7 @@ pub fn run(ctx: &mut Ctx) {
         let Some(real) = catch(|| q.real()) else { ctx.count("build.panic"); continue };
         let r = crate::c01::render(&real, B::Sqlite);
         let sq = recipe.clone();
-        ctx.case_norm(format!("stmt sqlite {recipe}"), crate::c01::expect_line(&r), true, &move || sq.clone(), Box::new(|m: &str| match m.rfind(" safe:") { Some(i) => m[..i].to_string(), None => m.to_string() }));
+        ctx.case_norm(format!("stmt sqlite {recipe}"), crate::c01::expect_line(&r), true, &move || sq.clone(), crate::c01::strip_flags(false));
         let Some(r) = r else { ctx.count("render.panic"); continue };
         ctx.count(match &q { Query::Sel(_) => "kind.select", Query::Ins(_) => "kind.insert", Query::Upd(_) => "kind.update", Query::Del(_) => "kind.delete", Query::With(_, _) => "kind.with" });
         writeln!(out, "{}", serde_json::json!({"recipe": recipe, "inline": r.inline, "sql": r.sql, "values": r.values.iter().map(bind_json).collect::<Vec<_>>(), "explicit": xq(&q),
